@@ -117,7 +117,7 @@ func replaceVar(body, v, t string) string {
 
 // splitForall parses "(forall ((v s) ...) body)".
 func splitForall(s string) (vars, sorts []string, body string, ok bool) {
-	if !strings.HasPrefix(s, "(forall (") {
+	if !strings.HasPrefix(s, "(forall (") && !strings.HasPrefix(s, "(exists (") {
 		return
 	}
 	i := len("(forall ")
@@ -176,7 +176,10 @@ func matchParen(s string, i int) int {
 // positiveForalls returns the [start,end) ranges of forall subterms occurring positively in text
 // (under and / or / the consequent of =>; polarity flips under not and in antecedents; anything
 // else stops the descent).
-func positiveForalls(text string) [][2]int {
+func positiveForalls(text string) [][2]int { return positiveQuants(text, "forall") }
+
+// positiveQuants: the same for an arbitrary quantifier keyword ("forall" / "exists").
+func positiveQuants(text string, kw string) [][2]int {
 	var out [][2]int
 	var walk func(start int, positive bool)
 	walk = func(start int, positive bool) {
@@ -219,7 +222,7 @@ func positiveForalls(text string) [][2]int {
 			return as
 		}
 		switch op {
-		case "forall":
+		case kw:
 			if positive {
 				out = append(out, [2]int{start, end})
 			}
@@ -250,8 +253,147 @@ func positiveForalls(text string) [][2]int {
 // returns the instances of the pending quantified assumptions on those constants (local to the
 // obligation: they are not added to the script).
 func (c *FuncCtx) skolemizeGoal(text string) (string, []string) {
+	t, extra, sks := c.skolemizeGoal0(text)
+	// existentials in the local assumption instances get witnesses (fresh constants), which are then
+	// candidates for the goal's own existentials (the invariant's witness for element k is the
+	// goal's witness for element k)
+	if strings.Contains(t, "(exists ((q_") {
+		idxSort := string(c.sc.idxSort())
+		for li, line := range extra {
+			if !strings.Contains(line, "(exists ((q_") || !strings.HasPrefix(line, "(assert ") {
+				continue
+			}
+			inner := line[len("(assert ") : len(line)-1]
+			for round := 0; round < 6; round++ {
+				occs := positiveQuants(inner, "exists")
+				done := true
+				for _, occ := range occs {
+					vars, sorts, body, ok := splitForall(inner[occ[0]:occ[1]])
+					if !ok {
+						continue
+					}
+					allIdx := true
+					for _, so := range sorts {
+						if so != idxSort && !(c.sc.mathInts && isMathIntSort(Sort(so))) {
+							allIdx = false
+						}
+					}
+					if !allIdx {
+						continue
+					}
+					var tuple []Term
+					for i, v := range vars {
+						w := c.sc.fresh("wit_"+strings.TrimPrefix(v, "q_"), Sort(sorts[i]))
+						body = replaceVar(body, v, w.S)
+						tuple = append(tuple, w)
+					}
+					if len(tuple) == 1 {
+						sks = append(sks, tuple[0])
+					} else {
+						c.witTuples = append(c.witTuples, tuple)
+					}
+					inner = inner[:occ[0]] + body + inner[occ[1]:]
+					done = false
+					break
+				}
+				if done {
+					break
+				}
+			}
+			extra[li] = "(assert " + inner + ")"
+		}
+	}
+	out := c.instantiateGoalExists(t, sks)
+	c.witTuples = nil
+	return out, extra
+}
+
+// instantiateGoalExists: a positive existential over index variables in a goal is offered ground
+// witnesses (the skolem constants of the goal and the index terms the program uses):
+// exists x. P(x) is replaced by the equivalent P(t1) or ... or P(tn) or exists x. P(x).
+func (c *FuncCtx) instantiateGoalExists(text string, sks []Term) string {
+	if !strings.Contains(text, "(exists ((q_") {
+		return text
+	}
+	idxSort := string(c.sc.idxSort())
+	pos := 0
+	for round := 0; round < 8; round++ {
+		var occ *[2]int
+		for _, o := range positiveQuants(text, "exists") {
+			if o[0] >= pos {
+				oo := o
+				occ = &oo
+				break
+			}
+		}
+		if occ == nil {
+			break
+		}
+		sub := text[occ[0]:occ[1]]
+		vars, sorts, body, ok := splitForall(sub)
+		allIdx := ok && len(vars) <= 2
+		for _, s := range sorts {
+			if s != idxSort && !(c.sc.mathInts && isMathIntSort(Sort(s))) {
+				allIdx = false
+			}
+		}
+		if !allIdx {
+			pos = occ[1]
+			continue
+		}
+		cands := append([]Term{}, sks...)
+		recent := c.idxTerms
+		limit := maxIdxTerms
+		if len(vars) == 2 {
+			limit = 8
+		}
+		if len(recent) > limit {
+			recent = recent[len(recent)-limit:]
+		}
+		cands = append(cands, recent...)
+		var insts []string
+		seen := map[string]bool{}
+		addInst := func(b string) {
+			if !seen[b] {
+				seen[b] = true
+				insts = append(insts, b)
+			}
+		}
+		switch len(vars) {
+		case 1:
+			for _, t := range cands {
+				addInst(replaceVar(body, vars[0], t.S))
+			}
+		case 2:
+			for _, tu := range c.witTuples {
+				if len(tu) == 2 {
+					addInst(replaceVar(replaceVar(body, vars[0], tu[0].S), vars[1], tu[1].S))
+				}
+			}
+			few := c.idxTerms
+			if len(few) > 4 {
+				few = few[len(few)-4:]
+			}
+			for _, a := range few {
+				for _, b := range few {
+					addInst(replaceVar(replaceVar(body, vars[0], a.S), vars[1], b.S))
+				}
+			}
+		}
+		if len(insts) == 0 {
+			pos = occ[1]
+			continue
+		}
+		repl := "(or " + strings.Join(insts, " ") + " " + sub + ")"
+		text = text[:occ[0]] + repl + text[occ[1]:]
+		pos = occ[0] + len(repl)
+	}
+	return text
+}
+
+func (c *FuncCtx) skolemizeGoal0(text string) (string, []string, []Term) {
 	if !strings.Contains(text, "(forall ((q_") {
-		return text, nil
+		return text, nil, nil
 	}
 	idxSort := string(c.sc.idxSort())
 	var sks []Term
@@ -287,8 +429,9 @@ func (c *FuncCtx) skolemizeGoal(text string) (string, []string) {
 		}
 	}
 	if len(sks) == 0 {
-		return text, nil
+		return text, nil, nil
 	}
+	base := append([]Term{}, sks...)
 	// local instances: every pending quantifier on the skolems (and skolem x index-term pairs)
 	var extra []string
 	seen := map[string]bool{}
@@ -321,5 +464,5 @@ func (c *FuncCtx) skolemizeGoal(text string) (string, []string) {
 			}
 		}
 	}
-	return text, extra
+	return text, extra, base
 }
